@@ -12,4 +12,7 @@ go build -o "$T/overlaygen" ./cmd/overlaygen
 "$T/overlaygen" -repo "$R" -verif "$V" -out "$T"
 go build -tags verif -overlay "$T/overlay.json" -o "$T/verifcheck" ./cmd/verifcheck
 go build -o "$T/repro" ./cmd/repro
+go build -o "$T/verifplain" ./cmd/verifplain
+go build -tags "verif verife3" -overlay "$T/overlay.json" -o "$T/verifcheck3" ./cmd/verifcheck
+go build -race -gcflags=all=-d=checkptr=0 -tags "verif verife3" -overlay "$T/overlay.json" -o "$T/verifcheck-race" ./cmd/verifcheck
 echo "setup ok"
